@@ -45,6 +45,25 @@ impl<S: BitmapSlice + Send + Sync> PassthroughFs<S> {
     /// Check the HandleData flags against the flags from the current request
     /// if these do not match update the file descriptor flags and store the new
     /// result in the HandleData entry
+    /// Like `open_inode()`, but the final open is done with the caller's credentials.
+    ///
+    /// The `O_PATH` fd is obtained first with our own credentials: in file-handle mode
+    /// that needs open_by_handle_at(), which an unprivileged caller id cannot do.
+    fn open_inode_as(&self, ctx: &Context, inode: Inode, flags: i32) -> io::Result<File> {
+        let data = self.inode_map.get(inode)?;
+        if !is_safe_inode(data.mode) {
+            return Err(ebadf());
+        }
+        let mut new_flags = self.get_writeback_open_flags(flags);
+        if !self.cfg.allow_direct_io && flags & libc::O_DIRECT != 0 {
+            new_flags &= !libc::O_DIRECT;
+        }
+        let path_file = data.get_file()?;
+
+        let (_uid, _gid) = set_creds(ctx.uid, ctx.gid)?;
+        reopen_fd_through_proc(&path_file, new_flags | libc::O_CLOEXEC, &self.proc_self_fd)
+    }
+
     #[inline(always)]
     fn check_fd_flags(&self, data: Arc<HandleData>, fd: RawFd, flags: u32) -> io::Result<()> {
         let open_flags = data.get_flags();
@@ -762,8 +781,7 @@ impl<S: BitmapSlice + Send + Sync> FileSystem for PassthroughFs<S> {
                     None
                 };
 
-                let (_uid, _gid) = set_creds(ctx.uid, ctx.gid)?;
-                self.open_inode(entry.inode, args.flags as i32)?
+                self.open_inode_as(ctx, entry.inode, args.flags as i32)?
             }
         };
 
